@@ -212,6 +212,13 @@ def make_units(tier, only):
                 u = {'module': m, 'L': L, 'ajax': ajax, 'shape': 'one', 'K': 1, 'options': {'ajax': ajax}}
                 u.update(dict(max_paths=800, timeout=25, query_timeout_ms=5000) if tier == 'quick' else dict(max_paths=20000, timeout=400, query_timeout_ms=60000))
                 units.append(u)
+    for i, m in enumerate(mods):
+        if only and m not in only:
+            continue
+        for L in common.short_lengths(intro[m], tier, m):
+            u = {'module': m, 'L': L, 'ajax': bool((i + L) % 2), 'shape': 'one', 'K': 1, 'prio': 2, 'options': {'ajax': bool((i + L) % 2), 'short': True}}
+            u.update(dict(max_paths=300, timeout=8, query_timeout_ms=4000) if tier == 'quick' else dict(max_paths=5000, timeout=60, query_timeout_ms=30000))
+            units.append(u)
     import random
     rnd = random.Random(common.seed())
     for i, m in enumerate(mods):
